@@ -376,6 +376,22 @@ example :
       loadBinary { w with files := ("d/s.h", 80) :: w.files } "d/a.c" = .stale "shadowed" := by
   decide
 
+/-- **parent_include_shadow_partial**: the part of the open finding C17-unsaved-parent-include-shadowed that does hold —
+    when a binary is used, the file that an include directive of ANY inherited program (direct or not, saved or not)
+    resolves to now, being one of the files that program in memory was built from, is not newer than the binary.  A
+    shadowing file NEWER than the binary is therefore always noticed; only an older one slips through. -/
+theorem parent_include_shadow_partial (w : World) (name : String) (h : loadBinary w name = .use) :
+    ∃ mt b, w.mtime (binPath w name) = some mt ∧ w.bins.lookup (binPath w name) = some b ∧
+      ∀ i, i ∈ b.inherits → ∀ q, Reach w i q → ∀ lp, w.progs.lookup q = some lp → ∀ cands r,
+        resolveIncludeP w cands = some r → r ∈ lp.files → ∀ t, w.mtime r = some t → t ≤ mt := by
+  obtain ⟨mt, b, hm, hb, hall⟩ := never_stale_transitive w name h
+  refine ⟨mt, b, hm, hb, ?_⟩
+  intro i hi q hq lp hl cands r _ hr t ht
+  obtain ⟨lp', hl', hfiles, _⟩ := hall i hi q hq
+  rw [hl] at hl'
+  cases hl'
+  exact hfiles r hr t ht
+
 /-! ## (a') what may be saved: no binary for a program laid out for a parent that is no longer current -/
 
 /-- the program blocks reachable from a linked block through `prog->inherit[]` -/
